@@ -628,11 +628,35 @@ namespace occa {
       }
 
       const operator_t &op = *(opToken.op);
+      const bool isQuestionMark = (op.opType & operatorType::questionMark);
+      const bool isColon        = (op.opType & operatorType::colon);
       while (state.operatorCount()) {
         const operator_t &prevOp = state.lastOperator().op;
 
         if (prevOp.opType & operatorType::pairStart) {
           break;
+        }
+
+        // The conditional operator nests to the right:
+        //   a ? b : c ? d : e  ->  a ? b : (c ? d : e)
+        //   a ? b ? c : d : e  ->  a ? (b ? c : d) : e
+        if ((isQuestionMark || isColon) &&
+            (prevOp.opType & (operatorType::questionMark |
+                              operatorType::colon))) {
+          if (isQuestionMark) {
+            break;
+          }
+          // A colon first closes the conditionals nested in the second operand
+          //   and then ends the second operand at its own question mark
+          const bool foundQuestionMark = (prevOp.opType & operatorType::questionMark);
+          applyOperator(state.popOperator());
+          if (state.hasError) {
+            return;
+          }
+          if (foundQuestionMark) {
+            break;
+          }
+          continue;
         }
 
         if ((op.precedence > prevOp.precedence) ||
